@@ -220,7 +220,7 @@ private theorem submit_untouched_of_failing_step {P : Prims} {b : Block} {l : Le
 theorem C39_prev_checked_submit (P : Prims) (b : Block) (l : Ledger) (h : b.hdr.u.prev ≠ l.mem.curHash) :
     Untouched (submitBlock P b l) l :=
   submit_untouched_of_failing_step
-    ⟨.guard "block.Header.PrevBlockHash != this.GetCurrentBlockHash()" (fun l => if b.hdr.u.prev ≠ l.mem.curHash then some .prevTip else none),
+    ⟨.guard "header.PrevBlockHash!=this.GetCurrentBlockHash()" (fun l => if b.hdr.u.prev ≠ l.mem.curHash then some .prevTip else none),
       by simp [submitBlockSteps, heightGuards], by simp [Step.passes, h]⟩
 
 /-! ### the header cache never excuses the signature check
@@ -301,92 +301,83 @@ theorem C39_retry (P b sr l b' sr') (h : (addBlock P b sr l).1 ≠ .added) :
 
 /-! ### the order of the model's guards and effects is the order of the statements in the source
 
-`Gen/AddBlockOrder.lean` is regenerated from `ledger_store.go` on every run (go/ast): the top-level statements of `AddBlock`,
-`SubmitBlock`, `AddHeader`, `saveBlock`, `submitBlock` as events — `guard` / `errguard` / `stop` / `write` (a call from which a
-store-writing method or an in-memory mutator is reachable) / `call`.  The theorems below stop checking when a validation is moved
-behind a write in the source, or when the source's guard sequence no longer is the model's. -/
+`Gen/AddBlockOrder.lean` is regenerated from package `ledgerstore` on every run (go/ast).  Each entry point — `AddBlock`, `SubmitBlock`,
+`AddHeader` — becomes ONE list of events in execution order, with the same-package pipeline helpers (`verifyHeader`, `saveBlock`,
+`submitBlock`, `saveBlockTo*Store`, and whatever is extracted from or inlined into them) expanded in place and the texts made
+canonical (locals inlined, multi-value locals written `<callee>#<i>`, receiver `this`, parameters named by their type).  Kinds: `guard`
+/ `stop` / `errguard`, `write` (a leaf call from which a store-writing method or an in-memory mutator is reachable), and `c…` for events
+inside a conditional block.  The theorems stop checking when a validation moves behind a write in the source, when a check or a
+write is added, dropped or reordered — not when locals are renamed, expressions hoisted or blocks moved between helpers. -/
 section source
 open OntVerif.Gen.AddBlockOrder
 
-/-- no `guard` / `stop` (a validation of the block) after the first `write`; `errguard`s after a write only propagate the I/O error
-of the write itself -/
+def isWrite (e : String × String) : Bool := e.1 = "write" ∨ e.1 = "cwrite"
+
+/-- no validation of the block (`guard` / `stop`, conditional or not) after the first write; `errguard`s after a write only propagate
+the I/O error of the write itself -/
 def validationsFirst : List (String × String) → Bool
   | [] => true
-  | e :: r => if e.1 = "write" then r.all (fun x => x.1 ≠ "guard" ∧ x.1 ≠ "stop") else validationsFirst r
+  | e :: r => if isWrite e then r.all (fun x => x.1 ≠ "guard" ∧ x.1 ≠ "stop" ∧ x.1 ≠ "cguard" ∧ x.1 ≠ "cstop") else validationsFirst r
 
 theorem C39_source_validations_first :
-    validationsFirst addBlock = true ∧ validationsFirst submitBlockPublic = true ∧ validationsFirst addHeader = true
-      ∧ validationsFirst saveBlock = true ∧ validationsFirst submitBlock = true ∧ verifyHeaderStoreWrites = [] := by
+    validationsFirst addBlockFlat = true ∧ validationsFirst submitBlockFlat = true ∧ validationsFirst addHeaderFlat = true
+      ∧ verifyHeaderStoreWrites = [] := by
   decide
 
-/-- the guard texts of an event list -/
-def guardTexts (evs : List (String × String)) : List String :=
-  (evs.filter (fun e => e.1 = "guard" ∨ e.1 = "stop" ∨ e.1 = "errguard")).map (·.2)
+/-- the unconditional checks before the first write, minus the two the model does not have (the `Height == 0` shortcut of
+`verifyHeader`, unreachable behind the next-height guard, and the store-error guard of the previous-header lookup) -/
+def modelGuards (evs : List (String × String)) : List String :=
+  (((evs.takeWhile fun e => !isWrite e).filter fun e => e.1 = "guard" ∨ e.1 = "stop" ∨ e.1 = "errguard").map (·.2)).filter
+    fun t => t ≠ "header.Height==0" ∧ t ≠ "err!=nil&&err!=scom.ErrNotFound"
 
-def notEffectSites (ss : List Step) : List String := (ss.filter (fun s => !s.isEffect)).map Step.site
-
-/-- the model's guards are the source's guards, in the same order: `AddBlock` up to `verifyHeader` (the cross-chain-message block
-is outside the model), then `saveBlock`, then the single validation of `submitBlock`; `SubmitBlock` likewise -/
-theorem C39_source_guard_order (P : Prims) (b : Block) (sr : Hash) :
-    notEffectSites (addBlockSteps P b sr)
-      = (guardTexts addBlock).take 3 ++ notEffectSites (verifyHeaderSteps P b.hdr) ++ guardTexts saveBlock
-          ++ (guardTexts submitBlock).take 1
-    ∧ (guardTexts addBlock).drop 3 = ["verifyHeader", "ccMsg.Height != currBlockHeight", "ccMsg.Version != types.CURR_CROSS_STATES_VERSION",
-          "GetCrossStatesRoot", "root != ccMsg.StatesRoot", "verifyCrossChainMsg", "saveBlock"]
-    ∧ (submitBlock.filter (fun e => e.1 = "guard" ∨ e.1 = "stop")).length = 1
-    ∧ (guardTexts submitBlockPublic).take 4 = ["this.closing", "blockHeight <= currBlockHeight", "blockHeight != nextBlockHeight",
-          "block.Header.PrevBlockHash != this.GetCurrentBlockHash()"]
-    ∧ (guardTexts addHeader).take 1 = notEffectSites ((addHeaderSteps P b.hdr).take 1) := by
-  have e1 : (guardTexts addBlock).take 3 = ["blockHeight <= currBlockHeight", "blockHeight != nextBlockHeight",
-      "block.Header.PrevBlockHash != this.GetCurrentBlockHash()"] := by decide
-  have e2 : guardTexts saveBlock = ["blockHeight > 0 && blockHeight <= this.GetCurrentBlockHeight()", "this.closing",
-      "blockHeight > 0 && blockHeight != (this.GetCurrentBlockHeight()+1)", "executeBlock",
-      "len(block.Transactions) != 0 && result.MerkleRoot != stateMerkleRoot"] := by decide
-  have e3 : (guardTexts submitBlock).take 1 = ["block.Header.Height != 0 && blockRoot != block.Header.BlockRoot"] := by decide
-  have e4 : (guardTexts addHeader).take 1 = ["header.Height != nextHeaderHeight"] := by decide
-  refine ⟨?_, by decide, by decide, by decide, ?_⟩
-  · rw [e1, e2, e3]; rfl
-  · rw [e4]; rfl
-/-- the write texts of an event list -/
-def writeTexts (evs : List (String × String)) : List String := (evs.filter (fun e => e.1 = "write")).map (·.2)
-
-def effectSites (ss : List Step) : List String := (ss.filter Step.isEffect).map Step.site
-
-/-- `submitBlock`'s writes with its three helpers inlined, minus the calls that are no-ops under the model's assumptions
-(pruning disabled, `ccMsg = nil`, no cross-chain states) -/
-def sourceWriteOrder : List String :=
-  ((writeTexts submitBlock).flatMap fun w =>
-      if w = "this.saveBlockToBlockStore" then writeTexts saveBlockToBlockStore
-      else if w = "this.saveBlockToStateStore" then writeTexts saveBlockToStateStore
-      else if w = "this.saveBlockToEventStore" then writeTexts saveBlockToEventStore
-      else [w]).filter
+/-- the writes, minus the calls that are no-ops under the model's assumptions (pruning disabled, `ccMsg = nil`, no cross-chain states) -/
+def modelWrites (evs : List (String × String)) : List String :=
+  ((evs.filter isWrite).map (·.2)).filter
     fun w => w ≠ "this.tryPruneBlock" ∧ w ≠ "this.crossChainStore.SaveMsgToCrossChainStore" ∧ w ≠ "this.stateStore.SaveCrossStates"
 
-/-- **order inside the helpers**: the model's effects of `submitBlock` are, one for one and in the same order, the store-writing /
-memory-mutating calls of `submitBlock` → `saveBlockToBlockStore` → `saveBlockToStateStore` → `saveBlockToEventStore` → three
-`CommitTo` → `setCurrentBlock` as they stand in the source; and the model's checks inside `verifyHeader` are the source's checks of
-the non-VBFT path in source order (after the `Height == 0` shortcut and the store-error guard, which the model does not have). -/
-theorem C39_source_inner_order (P : Prims) (b : Block) :
-    effectSites (submitSteps P b) = sourceWriteOrder
-    ∧ notEffectSites (verifyHeaderSteps P b.hdr) = (guardTexts verifyHeaderSolo).drop 2
-    ∧ (guardTexts verifyHeaderSolo).take 2 = ["header.Height == 0", "err != nil && err != scom.ErrNotFound"]
-    ∧ validationsFirst saveBlockToBlockStore = true ∧ validationsFirst saveBlockToStateStore = true
-    ∧ validationsFirst saveBlockToEventStore = true
-    ∧ writeTexts addHeader = effectSites (addHeaderSteps P b.hdr)
-    ∧ (writeTexts addBlock).drop 1 = ["this.delHeaderCache"] := by
-  have e1 : sourceWriteOrder = ["this.blockStore.NewBatch", "this.stateStore.NewBatch", "this.eventStore.NewBatch", "this.setHeaderIndex",
+def notEffectSites (ss : List Step) : List String := (ss.filter (fun s => !s.isEffect)).map Step.site
+def effectSites (ss : List Step) : List String := (ss.filter Step.isEffect).map Step.site
+
+set_option maxRecDepth 16384 in
+/-- **the model's pipeline IS the source's pipeline**: for each entry point the model's guards are, one for one and in order, the
+source's unconditional checks, and the model's effects are, one for one and in order, the source's writes (the consensus path of
+the model starts with the two checks of `ExecuteBlock`, which is a separate entry point in the source) -/
+theorem C39_source_order (P : Prims) (b : Block) (sr : Hash) :
+    notEffectSites (addBlockSteps P b sr) = modelGuards addBlockFlat
+    ∧ effectSites (addBlockSteps P b sr) = modelWrites addBlockFlat
+    ∧ (notEffectSites (submitBlockSteps P b)).drop 2 = modelGuards submitBlockFlat
+    ∧ effectSites (submitBlockSteps P b) = modelWrites submitBlockFlat
+    ∧ notEffectSites (addHeaderSteps P b.hdr) = modelGuards addHeaderFlat
+    ∧ effectSites (addHeaderSteps P b.hdr) = modelWrites addHeaderFlat := by
+  have g1 : modelGuards addBlockFlat = ["header.Height<=this.GetCurrentBlockHeight()", "header.Height!=(this.GetCurrentBlockHeight()+1)",
+      "header.PrevBlockHash!=this.GetCurrentBlockHash()", "GetHeaderByHash#0==nil", "GetHeaderByHash#0.Height+1!=header.Height",
+      "GetHeaderByHash#0.Timestamp>=header.Timestamp", "AddressFromBookkeepers", "GetHeaderByHash#0.NextBookkeeper!=AddressFromBookkeepers#0",
+      "VerifyMultiSignature", "header.Height>0&&header.Height<=this.GetCurrentBlockHeight()", "this.closing",
+      "header.Height>0&&header.Height!=(this.GetCurrentBlockHeight()+1)", "executeBlock",
+      "len(block.Transactions)!=0&&executeBlock#0.MerkleRoot!=stateMerkleRoot",
+      "header.Height!=0&&this.GetBlockRootWithNewTxRoots(header.Height,[]common.Uint256{header.TransactionsRoot})!=header.BlockRoot"] := by decide
+  have w1 : modelWrites addBlockFlat = ["this.blockStore.NewBatch", "this.stateStore.NewBatch", "this.eventStore.NewBatch", "this.setHeaderIndex",
       "this.blockStore.SaveCurrentBlock", "this.blockStore.SaveBlockHash", "this.blockStore.SaveBlock", "this.blockStore.SaveBloomData",
       "SaveNotify", "this.stateStore.AddStateMerkleTreeRoot", "this.stateStore.AddBlockMerkleTreeRoot", "this.stateStore.SaveCurrentBlock",
-      "result.WriteSet.ForEach", "this.eventStore.SaveEventNotifyByBlock", "this.eventStore.SaveCurrentBlock", "this.blockStore.CommitTo",
-      "this.eventStore.CommitTo", "this.stateStore.CommitTo", "this.setCurrentBlock"] := by decide
-  have e2 : (guardTexts verifyHeaderSolo).drop 2 = ["prevHeader == nil", "prevHeader.Height+1 != header.Height",
-      "prevHeader.Timestamp >= header.Timestamp", "AddressFromBookkeepers", "prevHeader.NextBookkeeper != address", "VerifyMultiSignature"] := by
-    decide
-  have e3 : writeTexts addHeader = ["this.addHeaderCache", "this.setHeaderIndex"] := by decide
-  refine ⟨?_, ?_, by decide, by decide, by decide, by decide, ?_, by decide⟩
-  · rw [e1]; rfl
-  · rw [e2]; rfl
-  · rw [e3]; rfl
+      ".WriteSet.ForEach", "this.eventStore.SaveEventNotifyByBlock", "this.eventStore.SaveCurrentBlock", "this.blockStore.CommitTo",
+      "this.eventStore.CommitTo", "this.stateStore.CommitTo", "this.setCurrentBlock", "this.delHeaderCache"] := by decide
+  have g2 : modelGuards submitBlockFlat = ["this.closing", "header.Height<=this.GetCurrentBlockHeight()", "header.Height!=(this.GetCurrentBlockHeight()+1)",
+      "header.PrevBlockHash!=this.GetCurrentBlockHash()", "GetHeaderByHash#0==nil", "GetHeaderByHash#0.Height+1!=header.Height",
+      "GetHeaderByHash#0.Timestamp>=header.Timestamp", "AddressFromBookkeepers", "GetHeaderByHash#0.NextBookkeeper!=AddressFromBookkeepers#0",
+      "VerifyMultiSignature",
+      "header.Height!=0&&this.GetBlockRootWithNewTxRoots(header.Height,[]common.Uint256{header.TransactionsRoot})!=header.BlockRoot"] := by decide
+  have w2 : modelWrites submitBlockFlat = modelWrites addBlockFlat := by decide
+  have g3 : modelGuards addHeaderFlat = ["header.Height!=(this.GetCurrentHeaderHeight()+1)", "GetHeaderByHash#0==nil",
+      "GetHeaderByHash#0.Height+1!=header.Height", "GetHeaderByHash#0.Timestamp>=header.Timestamp", "AddressFromBookkeepers",
+      "GetHeaderByHash#0.NextBookkeeper!=AddressFromBookkeepers#0", "VerifyMultiSignature"] := by decide
+  have w3 : modelWrites addHeaderFlat = ["this.addHeaderCache", "this.setHeaderIndex"] := by decide
+  refine ⟨?_, ?_, ?_, ?_, ?_, ?_⟩
+  · rw [g1]; rfl
+  · rw [w1]; rfl
+  · rw [g2]; rfl
+  · rw [w2, w1]; rfl
+  · rw [g3]; rfl
+  · rw [w3]; rfl
 end source
 
 /-! ### Non-vacuity: concrete chain, valid block added, each mutated field refused -/
